@@ -171,18 +171,21 @@ PROPS["C07"] = {
 }
 
 PROPS["C12"] = {
-    "files": BATCH_FILES, "native_files": ["root/c07_sendbatch_native.go"], "native_cuts": BATCH_CUTS,
+    "files": BATCH_FILES + ["region/fakes.go", "region/c02_correlation.go", "region/c15_compressor.go"], "native_files": ["root/c07_sendbatch_native.go"], "native_cuts": BATCH_CUTS,
     "claim": "For every batch of 1..N puts over 2 regions on 1 or 2 servers and every per-call outcome sequence (as C07): a batch that "
              "mixes tables, repeats a call or contains a non-batchable call at any position is rejected as a whole, nothing is sent and "
              "every slot carries an error; otherwise every call is sent to the server hosting its region, calls of one region are "
              "presented in batch order within each QueueBatch, a call is sent again only after a retryable outcome and never after its "
-             "success was received.",
+             "success was received; at the region level a conforming multi-response (also one for a request from which a cancelled call "
+             "was dropped) is accepted and dispatched, so that no needless retry re-executes calls.",
     "outside": "batches larger than N; the order in which the region client writes a region's actions into the multi-request is "
                "checked at the region level (C05/C02 harnesses), not here",
     "assumptions": ["(*client).getRegionAndClientForRPC is cut (as C07)"],
     "jobs": [
         {"name": "sendbatch_discipline", "pkg": "root", "entry": "VerifSendBatch", "stubs": BATCH_STUBS, "reach": ["returned"],
          "params": {"quick": {"PROP": 12, "N": 3, "TRIES": 2, "LOOKUPFAIL": 0, "CANCEL": 0}, "thorough": {"PROP": 12, "N": 3, "TRIES": 3, "LOOKUPFAIL": 1, "CANCEL": 0}}},
+        {"name": "multi_response_accepted", "pkg": "region", "entry": "VerifMultiCorrelation", "stubs": RECV_STUBS, "reach": ["correlated"], "native_retries": 10,
+         "params": {"quick": {"CALLS": 2, "CELLS": 1, "protoMax": 1, "protoFixed": 1}, "thorough": {"CALLS": 3, "CELLS": 1, "protoMax": 1, "protoFixed": 1}}},
         {"name": "sendbatch_invalid", "pkg": "root", "entry": "VerifSendBatchInvalid", "stubs": BATCH_STUBS, "reach": ["rejected"],
          "params": {"quick": {"PROP": 12, "N": 2, "TRIES": 2, "LOOKUPFAIL": 0, "CANCEL": 0}, "thorough": {"PROP": 12, "N": 3, "TRIES": 2, "LOOKUPFAIL": 0, "CANCEL": 0}}},
     ],
@@ -351,9 +354,13 @@ PROPS["C09"] = {
         {"name": "establish", "steps": 40000, "timeout_s": {"quick": 300, "thorough": 1500}, "pkg": "root", "entry": "VerifEstablish", "stubs": EST_STUBS, "reach": ["re-established", "replaced-or-gone"],
          "params": {"quick": {"FAULTS": 2}, "thorough": {"FAULTS": 3}}},
         {"name": "two_callers", "steps": 40000, "timeout_s": {"quick": 300, "thorough": 1500}, "pkg": "root", "entry": "VerifTwoCallers", "stubs": EST_STUBS, "reach": ["both-returned"],
-         "preempts": {"quick": 1, "thorough": 2}, "params": {"quick": {"FAULTS": 1, "BUSY": 1}, "thorough": {"FAULTS": 1, "BUSY": 1}}},
+         "preempts": {"quick": 1, "thorough": 2}, "params": {"quick": {"FAULTS": 1, "BUSY": 1, "SAME": 0}, "thorough": {"FAULTS": 1, "BUSY": 1, "SAME": 0}}},
         {"name": "two_callers_idle", "steps": 40000, "timeout_s": {"quick": 300, "thorough": 1500}, "pkg": "root", "entry": "VerifTwoCallers", "stubs": EST_STUBS, "reach": ["both-returned"],
-         "preempts": {"quick": 1, "thorough": 2}, "params": {"quick": {"FAULTS": 1, "BUSY": 0}, "thorough": {"FAULTS": 2, "BUSY": 0}}},
+         "preempts": {"quick": 1, "thorough": 2}, "params": {"quick": {"FAULTS": 1, "BUSY": 0, "SAME": 0}, "thorough": {"FAULTS": 2, "BUSY": 0, "SAME": 0}}},
+        {"name": "concurrent_failure_reports", "pkg": "root", "entry": "VerifConcurrentFailureReports", "stubs": EST_STUBS, "reach": ["reported"],
+         "preempts": {"quick": 2, "thorough": 3}, "params": {"quick": {"FAULTS": 0}, "thorough": {"FAULTS": 0}}},
+        {"name": "two_callers_same_region", "steps": 40000, "timeout_s": {"thorough": 3000}, "pkg": "root", "entry": "VerifTwoCallers", "stubs": EST_STUBS, "reach": ["both-returned"],
+         "preempts": {"thorough": 1}, "params": {"thorough": {"FAULTS": 2, "BUSY": 0, "SAME": 1}}},
     ],
 }
 
@@ -373,7 +380,7 @@ PROPS["C04"] = {
         {"name": "sendrpc_faults", "steps": 40000, "timeout_s": {"quick": 300, "thorough": 1500}, "pkg": "root", "entry": "VerifSendRPCFaults", "stubs": EST_STUBS, "reach": ["succeeded", "table-gone"],
          "preempts": {"quick": 1, "thorough": 2}, "params": {"quick": {"FAULTS": 2}, "thorough": {"FAULTS": 3}}},
         {"name": "two_callers_busy", "steps": 40000, "timeout_s": {"quick": 300, "thorough": 1500}, "pkg": "root", "entry": "VerifTwoCallers", "stubs": EST_STUBS, "reach": ["both-returned"],
-         "preempts": {"quick": 1, "thorough": 2}, "params": {"quick": {"FAULTS": 1, "BUSY": 1}, "thorough": {"FAULTS": 1, "BUSY": 1}}},
+         "preempts": {"quick": 1, "thorough": 2}, "params": {"quick": {"FAULTS": 1, "BUSY": 1, "SAME": 0}, "thorough": {"FAULTS": 1, "BUSY": 1, "SAME": 0}}},
         {"name": "classify_exception", "pkg": "region", "entry": "VerifClassify", "reach": ["retry-later", "region", "server", "other"],
          "params": {"quick": {"L": 70}, "thorough": {"L": 90}}},
         {"name": "region_moved", "steps": 40000, "pkg": "root", "entry": "VerifRegionMoved", "stubs": EST_STUBS, "reach": ["moved"],
